@@ -1,15 +1,20 @@
 //! vxn: native harness (bounded contract checks, counterexample search, replay) over the real library.
+mod bin;
 mod c01;
-mod gen;
-mod json;
-#[allow(non_snake_case, unused_variables, unreachable_patterns)]
-mod oracle_gen;
-mod report;
+mod det;
+mod dirs;
+pub mod gen;
+pub mod json;
+mod lines;
+#[allow(non_snake_case, unused_variables, unreachable_patterns, dead_code)]
+pub mod oracle_gen;
+mod rep;
+pub mod report;
 
 use std::env;
 
-fn arg_or_file(a: &str) -> String {
-    // "@file:<path>" reads the payload from a file; "@src:<text>" is inline text
+/// "@file:<path>" reads the payload from a file; "@src:<text>" is inline text
+pub fn arg_or_file(a: &str) -> String {
     if let Some(p) = a.strip_prefix("@file:") {
         std::fs::read_to_string(p).expect("cannot read payload file")
     } else if let Some(t) = a.strip_prefix("@src:") {
@@ -25,17 +30,17 @@ fn main() {
         eprintln!("usage: vxn <check> [--tier quick|thorough] [--seed N] | vxn <replay-cmd> args..");
         std::process::exit(2);
     }
-    let mut tier = "quick".to_string();
+    let mut tier = env::var("VERIF_TIER").unwrap_or_else(|_| "quick".to_string());
     let mut seed: u64 = env::var("VERIF_SEED").ok().and_then(|s| s.parse().ok()).unwrap_or(1);
     let mut i = 2;
     let mut rest = vec![];
     while i < args.len() {
         match args[i].as_str() {
-            "--tier" => {
+            "--tier" if i + 1 < args.len() => {
                 tier = args[i + 1].clone();
                 i += 2;
             }
-            "--seed" => {
+            "--seed" if i + 1 < args.len() => {
                 seed = args[i + 1].parse().unwrap_or(1);
                 i += 2;
             }
@@ -45,18 +50,14 @@ fn main() {
             }
         }
     }
-    // a panic inside a check must not look like a pass
     let cmd = args[1].as_str();
-    match cmd {
-        "c01" => println!("{}", c01::run(&tier, seed).to_json().render()),
-        "c01-case" => {
-            let (ok, msg) = c01::replay(&arg_or_file(&rest[0]), &rest[1]);
-            println!("{}", msg);
-            std::process::exit(if ok { 0 } else { 1 });
-        }
-        _ => {
-            eprintln!("unknown command {}", cmd);
-            std::process::exit(2);
+    let mods: [fn(&str, &[String], &str, u64) -> Option<i32>; 6] =
+        [c01::dispatch, rep::dispatch, dirs::dispatch, bin::dispatch, lines::dispatch, det::dispatch];
+    for m in mods.iter() {
+        if let Some(code) = m(cmd, &rest, &tier, seed) {
+            std::process::exit(code);
         }
     }
+    eprintln!("unknown command {}", cmd);
+    std::process::exit(2);
 }
